@@ -816,7 +816,9 @@ func (f *frame) zeroElems(sl SliceV) {
 		for i := 0; i < len(ar.path); i++ {
 			base = "(parent " + base + ")"
 		}
-		v.ctx.AssertRaw(fmt.Sprintf("(assert (forall ((r Ref)) (! (=> (not (= (elemBase %s) %s)) (= (select %s r) (select %s r))) :pattern ((select %s r)))))", base, sl.B.S, a2.S, a.S, a2.S))
+		// everything that is not an element (path) of the new backing array keeps its value
+		v.ctx.AssertRaw(fmt.Sprintf("(assert (forall ((r Ref)) (! (=> (not (and (= (elemBase %s) %s) (= r %s))) (= (select %s r) (select %s r))) :pattern ((select %s r)))))",
+			base, sl.B.S, pathRef(fmt.Sprintf("(elem %s (elemIdx %s))", sl.B.S, base), ar.path), a2.S, a.S, a2.S))
 		f.cur = f.cur.with(ar.name, a2)
 	}
 }
